@@ -203,6 +203,23 @@ def run_stmts(stmts, env):
         elif isinstance(st, ast.Expr) and isinstance(st.value, ast.Call) and isinstance(st.value.func, ast.Attribute) and \
                 st.value.func.attr in ('add', 'append', 'update', 'discard', 'setdefault'):
             ev(st.value, env)
+        elif isinstance(st, ast.Try) and not st.finalbody:
+            try:
+                run_stmts(st.body, env)
+            except (Returned, Broke, Continued, Unsupported):
+                raise
+            except Exception as err:  # pylint: disable=broad-except
+                for h in st.handlers:
+                    names = [] if h.type is None else [u(e).split('.')[-1] for e in (h.type.elts if isinstance(h.type, ast.Tuple) else [h.type])]
+                    if h.type is None or any(n in [c.__name__ for c in type(err).__mro__] for n in names):
+                        if h.name:
+                            env[h.name] = err
+                        run_stmts(h.body, env)
+                        break
+                else:
+                    raise
+            else:
+                run_stmts(st.orelse, env)
         elif isinstance(st, ast.Break):
             raise Broke()
         elif isinstance(st, ast.Continue):
